@@ -203,7 +203,7 @@ def check_init(acc, rec, stream, fname, mode, sel, la_url, body):
         elif p['system_id'] == CLEARKEY:
             if p['version'] != 1 or init.kid not in p['kids']:
                 bad('clearkey-kids', f'ClearKey pssh v{p["version"]} lists {[k.hex() for k in p["kids"]]}, track KID '
-                    f'{init.kid.hex()}')
+                    f'{init.kid.hex() if init.kid else None}')
         else:
             bad('pssh-system', f'pssh with unexpected SystemID {p["system_id"].hex()}')
     if sorted(got) != sorted(want):
